@@ -135,6 +135,15 @@ func reproducesWithHistory(id, workerBin, sitesPath, scratch string, seed uint64
 	return false
 }
 
+func sortedKeysOf(m map[string]string) []string {
+	ks := make([]string, 0, len(m))
+	for k := range m {
+		ks = append(ks, k)
+	}
+	sort.Strings(ks)
+	return ks
+}
+
 // blockingUnsupported selects, from simgen's list of constructs it does not control, those
 // on which a goroutine can block.
 func blockingUnsupported(u []string) []string {
@@ -250,7 +259,14 @@ func main() {
 
 	// 1. overlay from the current working tree of /repo
 	gen := filepath.Join(scratch, "gen")
-	if out, err := run(repoDir, goEnv(), filepath.Join(verifDir, "bin", "simgen"), repoDir, gen); err != nil {
+	// dependencies that read the file system themselves (doublestar's FilepathGlob / GlobWalk helpers)
+	var depDirs []string
+	if o, err := run(verifDir, goEnv(), "go", "list", "-m", "-f", "{{.Dir}}", "github.com/bmatcuk/doublestar/v4"); err == nil {
+		if d := strings.TrimSpace(o); d != "" && !strings.Contains(d, "\n") {
+			depDirs = append(depDirs, d)
+		}
+	}
+	if out, err := run(repoDir, goEnv(), filepath.Join(verifDir, "bin", "simgen"), append([]string{repoDir, gen}, depDirs...)...); err != nil {
 		fmt.Print(out)
 		die(2, "simgen failed:", err)
 	} else {
@@ -258,13 +274,15 @@ func main() {
 	}
 	sitesPath := filepath.Join(gen, "sites.json")
 	var sites struct {
-		Sites       []string `json:"sites"`
-		Native      []string `json:"native"`
-		Unsupported []string `json:"unsupported"`
-		GoStmts     int      `json:"go_stmts"`
-		GoApprox    int      `json:"go_approx"`
-		Vars        int      `json:"package_vars"`
-		TypeErrors  []string `json:"type_errors"`
+		Sites       []string          `json:"sites"`
+		Native      []string          `json:"native"`
+		Unsupported []string          `json:"unsupported"`
+		GoStmts     int               `json:"go_stmts"`
+		GoApprox    int               `json:"go_approx"`
+		DepReplace  map[string]string `json:"dependency_replace"`
+		DepFiles    []string          `json:"dependency_files"`
+		Vars        int               `json:"package_vars"`
+		TypeErrors  []string          `json:"type_errors"`
 	}
 	if b, err := os.ReadFile(sitesPath); err != nil || json.Unmarshal(b, &sites) != nil {
 		die(2, "cannot read sites.json")
@@ -286,13 +304,18 @@ func main() {
 	// a repository other than /repo (VERIF_REPO, used for seeded-change runs on scratch copies):
 	// build with a copy of go.mod whose replace directive points there
 	modfile := ""
-	if repoDir != "/repo" {
+	if repoDir != "/repo" || len(sites.DepReplace) > 0 {
 		b, err := os.ReadFile(filepath.Join(verifDir, "go.mod"))
 		if err != nil {
 			die(2, err)
 		}
 		modfile = filepath.Join(scratch, "go.mod")
-		os.WriteFile(modfile, []byte(strings.Replace(string(b), "=> /repo", "=> "+repoDir, 1)), 0o644)
+		mod := strings.Replace(string(b), "=> /repo", "=> "+repoDir, 1)
+		// dependencies that read the file system are built from simgen's rewritten copies
+		for _, m := range sortedKeysOf(sites.DepReplace) {
+			mod += fmt.Sprintf("\nreplace %s => %s\n", m, sites.DepReplace[m])
+		}
+		os.WriteFile(modfile, []byte(mod), 0o644)
 		if sb, err := os.ReadFile(filepath.Join(verifDir, "go.sum")); err == nil {
 			os.WriteFile(filepath.Join(scratch, "go.sum"), sb, 0o644)
 		}
